@@ -31,6 +31,7 @@ CATALOG = {
                          {"schema": "s1", "type_name": "ty4", "base_type": "OBJECT",
                           "properties": {"attributes": [{"name": "f1", "type": "int", "size": None}, {"name": "f2", "type": "varchar", "size": 5}]}}),
     ("type", "table"): ("CREATE TYPE ty5 AS TABLE (a int, b varchar(3));", {"schema": None, "type_name": "ty5"}),
+    ("type", "table_kw"): ("CREATE TYPE s1.ty6 AS TABLE (type int, comment varchar(3), b int);", {"schema": "s1", "type_name": "ty6"}),
     ("domain", "vc"): ("CREATE DOMAIN dm1 AS varchar(5);", {"schema": None, "domain_name": "dm1", "base_type": "varchar"}),
     ("domain", "num_s"): ("CREATE DOMAIN s1.dm2 AS numeric(10,2);", {"schema": "s1", "domain_name": "dm2", "base_type": "numeric"}),
     ("domain", "enum"): ("CREATE DOMAIN s1.dm4 AS ENUM ('new', 'paid', 'shipped');", {"schema": "s1", "domain_name": "dm4", "base_type": "ENUM",
@@ -68,9 +69,10 @@ RECASE = {"CREATE", "TYPE", "AS", "TABLE", "DOMAIN", "SCHEMA", "IF", "NOT", "EXI
 def recase_stmt(ddl, rnd):
     if rnd.random() < 0.34:
         return ddl
-    out, in_q = [], False
+    out, in_q, body = [], False, False
     for w in ddl.split(" "):
-        if not in_q and w.upper() in RECASE:
+        body = body or "(" in w          # words inside a parenthesised body may be names: left as written
+        if not in_q and not body and w.upper() in RECASE:
             w = recase(w, rnd)
         if w.count("'") % 2 == 1:
             in_q = not in_q
@@ -156,6 +158,9 @@ def compare_entity(kind, exp, exact, got):
     if kind == "table" and exp.get("table_name") == "tu":
         if [(c["name"], c["type"]) for c in got.get("columns", [])] != USES_TYPES:
             paths.append("column_types")
+    if kind == "type" and exp.get("type_name") == "ty6":
+        if [(c["name"], c["type"], c["size"]) for c in (got.get("properties") or {}).get("columns", [])] != [("type", "int", None), ("comment", "varchar", 3), ("b", "int", None)]:
+            paths.append("type_table_columns")
     if kind == "type" and "columns" in (got.get("properties") or {}) and exp.get("type_name") == "ty5":
         if [(c["name"], c["type"], c["size"]) for c in got["properties"]["columns"]] != [("a", "int", None), ("b", "varchar", 3)]:
             paths.append("type_table_columns")
